@@ -59,6 +59,9 @@ class VariableBoundVisitor(ModelVisitor):
         self.depth = 0
         self.process_subscript = True
         self.propagators = []
+        # Whether the enclosing object is random in this call
+        self._used_rand = True
+        self._parent_used_rand = False
         
         # Result data from processing expressions
         self.field = None
@@ -105,8 +108,19 @@ class VariableBoundVisitor(ModelVisitor):
             b.update()
 #            print(b.toString())
             
+    def visit_composite_field(self, f):
+        # The blocks of a sub-object that is not random in this call
+        # are not imposed, so they must not narrow any domain
+        old_used_rand = self._used_rand
+        old_parent_used_rand = self._parent_used_rand
+        self._used_rand = old_used_rand and (f.is_used_rand or not self._parent_used_rand)
+        self._parent_used_rand = f.is_used_rand
+        super().visit_composite_field(f)
+        self._used_rand = old_used_rand
+        self._parent_used_rand = old_parent_used_rand
+
     def visit_constraint_block(self, c:ConstraintBlockModel):
-        if c.enabled:
+        if c.enabled and self._used_rand:
             super().visit_constraint_block(c)
 
     def visit_constraint_if_else(self, c:ConstraintIfElseModel):
